@@ -46,6 +46,7 @@ TEnd ==
   /\ Ev.saddle_defect <= Slack                     \* every saddle point / minimiser is a fixed point of the update
   /\ Ev.final_dist <= T.final_tol                  \* converged to the minimiser within the budget
   /\ Ev.in_place = 1                               \* caller's arrays updated in place
+  /\ Ev.caller_prod <= Slack                       \* array-valued steps handed in by the caller: tau_i * sigma_j unchanged (still an admissible pair)
   /\ l' = l + 1 /\ UNCHANGED <<tid, iter, prev>>
 TNext == TGm \/ TPd \/ TEnd
 TraceSpec == TInit /\ [][TNext]_tvars
